@@ -549,7 +549,7 @@ func TestC02(t *testing.T) {
 		"1..6 concurrent RoundTrips through one HostClient/connection (methods, paths, 0..8 fields incl. mixed-case names, '_' and '^' in names, cookies and connection-specific fields that must be dropped; no body / buffered / SetBodyStream declared, unknown (-1) or empty, bodies up to 70000 with generated reader chunking) against a scripted TLS server in memory that answers each stream with a generated response (status, 1..9 fields carrying the request's tag, body up to 70000 also tagged) encoded by the reference HPACK encoder with per-field representation choices, header blocks cut into HEADERS+CONTINUATION at arbitrary octets, padded HEADERS/DATA, empty DATA frames, optional size update; response frames of different streams interleaved by a generated schedule, lock-step (client quiescence by hook counters and goroutine states) or burst. Oracle at the server: odd strictly increasing fresh stream ids, pseudo-headers and field multiset equal to what the caller gave minus connection-specific fields, body exact, END_STREAM once. At each caller: err==nil, status, every field and the body of exactly its own stream. Non-trivial = >=2 requests, or a streamed request body, or a split response block; distinct by case hash.",
 		"request/response field values stay inside the field-value grammar; user-agent/content-type/content-length are fasthttp singletons and compared loosely")
 	defer s.finish()
-	runLane(s, Lane[c02Case]{Name: "exchange", Journal: true, Quick: 600, Thor: 60000, Gen: c02Gen, Run: c02Run})
+	runLane(s, Lane[c02Case]{Name: "exchange", Journal: true, Quick: 600, Thor: 30000, Gen: c02Gen, Run: c02Run})
 }
 
 var _ = rawframe.Data
